@@ -470,17 +470,17 @@ func newSc(c *core.C, cfg Cfg) *Sc {
 		// B's native token: 4 units travel to A before the limit exists (supply of the voucher on A = 4), 3 stay with user B
 		s.denom = transfertypes.NewDenom("rlb", transfertypes.NewHop(port, chanA)).IBCDenom()
 		s.sendB = "rlb"
-		s.q0 = quota{50, 50, 1} // 50% of 4 = 2 units
+		s.q0 = quota{50, 75, 1} // send 50% of 4 = 2 units, receive 75% of 4 = 3 units: different on purpose, so that a mix-up of the two percentages shows
 	case pathV2:
 		// as pathVoucher, over the client-to-client route: the voucher's newest hop is A's client identifier
 		s.denom = transfertypes.NewDenom("rlb", transfertypes.NewHop(port, clientA)).IBCDenom()
 		s.sendB = "rlb"
-		s.q0 = quota{50, 50, 1}
+		s.q0 = quota{50, 75, 1}
 	case pathNative:
 		// A's native token: supply 6, 2 units travel to B before the limit exists (user B can send them home)
 		s.denom = "rla"
 		s.sendB = transfertypes.NewDenom("rla", transfertypes.NewHop(port, chanB)).IBCDenom()
-		s.q0 = quota{40, 40, 1} // 40% of 6 = 2.4 -> 2 units
+		s.q0 = quota{40, 60, 1} // send 40% of 6 = 2.4 -> 2 units, receive 60% of 6 = 3.6 -> 3 units
 	default:
 		panic("c41: unknown path")
 	}
